@@ -5,9 +5,17 @@
    both versions parse and a's precedence is not below b's; [best_entry p l r] = r is an
    element of l accepted by p and at least as new as every accepted element of l;
    [none_entry p l] = no parsable element of l is accepted (same for tags).
-   [sort] stands for sort.Sort, [cvalid]/[sat] for semver.NewConstraint / Constraints.Check. *)
-From Coq Require Import List String NArith Sorting.Permutation Sorting.Sorted.
+   [sort] stands for sort.Sort, [cvalid]/[sat] for semver.NewConstraint / Constraints.Check:
+   parameters of the first group of theorems, and from C18_star_is_stable on the concrete
+   functions of Misc/Constraint.v (the library's parser and checker transcribed).
+   [new_constraint c] = Some cs: the string parses to the OR-list cs of AND-lists of single
+   constraints; [constraints_check cs v] / [ccheck v k]: Constraints.Check / constraint.check;
+   [plain f con] = the constraint with function f on the full version con (no wildcard);
+   [release M m p] = the version M.m.p without pre-release and metadata. *)
+From Coq Require Import List String Bool NArith Sorting.Permutation Sorting.Sorted.
 From Helm Require Import Misc.Semver Misc.SemverProofs Misc.Index Misc.IndexProofs.
+From Helm Require Import Misc.Constraint Misc.ConstraintProofs.
+From Helm Require Gen.C18Semver.
 Import ListNotations.
 Local Open Scope string_scope.
 
@@ -178,3 +186,303 @@ Theorem C18_nil_entry_refuted :
               exists vs, load_versions isort cvs = Some vs /\ List.length vs = 2.
 Proof. exact nil_entry_refuted. Qed.
 Print Assumptions C18_nil_entry_refuted.
+
+(* ======================================================================================
+   The constraint language inside the model (Misc/Constraint.v = semver v3.3.0 constraints.go)
+   ====================================================================================== *)
+
+(* what was transcribed is what /repo/go.mod pins: release and SHA-256 of constraints.go *)
+Example C18_semver_source_pinned :
+  C18Semver.semver_version = "v3.3.0" /\
+  C18Semver.semver_constraints_sha256 = "ff4f338bd640d8fe0d3d1a12f5805b62bfedf7fd3824f8c88c160133f512db8a".
+Proof. exact transcription_source. Qed.
+Print Assumptions C18_semver_source_pinned.
+
+(* the four regular expressions of the model print to the source texts built in the library's
+   init() (read by the translator on every run), with Go's group numbering *)
+Example C18_constraint_regexes_transcribed :
+  [ ("constraintRegex", show_re constraint_re); ("constraintRangeRegex", show_re range_re);
+    ("findConstraintRegex", show_re find_re); ("validConstraintRegex", show_re valid_re) ]
+  = C18Semver.semver_regexes /\
+  numbered constraint_re 1 = Some 12 /\ numbered range_re 1 = Some 21 /\
+  numbered find_re 1 = Some 12 /\ numbered valid_re 1 = Some 25.
+Proof. exact regexes_transcribed. Qed.
+Print Assumptions C18_constraint_regexes_transcribed.
+
+(* the operator table is the library's map constraintOps *)
+Example C18_constraint_ops_transcribed :
+  map (fun p => (fst p, cfunc_name (snd p))) constraint_ops = C18Semver.semver_constraint_ops.
+Proof. exact ops_transcribed. Qed.
+Print Assumptions C18_constraint_ops_transcribed.
+
+(* the hypothesis of C18_get_best / C18_tag_match, now a fact about the concrete checker *)
+Theorem C18_star_is_stable : forall v, sat "*" v = is_stable v.
+Proof. exact sat_star. Qed.
+Print Assumptions C18_star_is_stable.
+
+(* Get, closed: no hypothesis about the constraint semantics is left.  For a version string
+   the parser refuses: an error; otherwise the entry with the identical string if there is
+   one, else a highest entry accepted by the parsed constraint, else not found. *)
+Theorem C18_get_constraint_concrete :
+  forall sort : list entry -> list entry,
+    (forall l, Permutation l (sort l)) ->
+    (forall l, Forall (fun e => parse_version (eversion e) <> None) l ->
+               StronglySorted (fun a b => go_less a b = false) (sort l)) ->
+    forall api es idx, load_index sort (IFParsed api es) = LOk idx ->
+    forall name ver,
+      match assoc name idx with
+      | None => get cvalid sat idx name ver = GErrNoName
+      | Some vs =>
+          (vs = [] -> get cvalid sat idx name ver = GErrNoVersion) /\
+          (vs <> [] ->
+             (ver = "" ->
+                (exists e, get cvalid sat idx name ver = GOk e /\ best_entry is_stable vs e) \/
+                (get cvalid sat idx name ver = GErrNotFound /\ none_entry is_stable vs)) /\
+             (ver <> "" ->
+                match new_constraint ver with
+                | None => get cvalid sat idx name ver = GErrConstraint
+                | Some cs =>
+                    (forall e0, In e0 vs -> eversion e0 = ver ->
+                       exists e, get cvalid sat idx name ver = GOk e /\ In e vs /\ eversion e = ver) /\
+                    ((forall e0, In e0 vs -> eversion e0 <> ver) ->
+                       (exists e, get cvalid sat idx name ver = GOk e /\
+                                  best_entry (constraints_check cs) vs e) \/
+                       (get cvalid sat idx name ver = GErrNotFound /\
+                        none_entry (constraints_check cs) vs))
+                end))
+      end.
+Proof. exact get_constraint_concrete_thm. Qed.
+Print Assumptions C18_get_constraint_concrete.
+
+Theorem C18_tag_match_concrete :
+  forall tags ver,
+    StronglySorted tge (filter is_valid_version tags) ->
+    (ver = "" ->
+       (exists t, tag_match cvalid sat tags ver = TOk t /\ best_tag is_stable tags t) \/
+       (tag_match cvalid sat tags ver = TErrNotFound /\ none_tag is_stable tags)) /\
+    (ver <> "" -> In ver tags -> tag_match cvalid sat tags ver = TOk ver) /\
+    (ver <> "" -> ~ In ver tags ->
+       match new_constraint ver with
+       | None => tag_match cvalid sat tags ver = TErrConstraint
+       | Some cs =>
+           (exists t, tag_match cvalid sat tags ver = TOk t /\ best_tag (constraints_check cs) tags t) \/
+           (tag_match cvalid sat tags ver = TErrNotFound /\ none_tag (constraints_check cs) tags)
+       end).
+Proof. exact tag_match_concrete_thm. Qed.
+Print Assumptions C18_tag_match_concrete.
+
+Theorem C18_resolve_concrete :
+  forall sort : list entry -> list entry,
+    (forall l, Permutation l (sort l)) ->
+    (forall l, Forall (fun e => parse_version (eversion e) <> None) l ->
+               StronglySorted (fun a b => go_less a b = false) (sort l)) ->
+    forall api es idx, load_index sort (IFParsed api es) = LOk idx ->
+    forall ds,
+      match resolve cvalid sat (LOk idx) ds with
+      | Some locks =>
+          Forall2 (fun d v =>
+                     exists cs vs e, new_constraint (dconstraint d) = Some cs /\
+                                     assoc (dname d) idx = Some vs /\ eversion e = v /\
+                                     best_entry (constraints_check cs) (filter has_urls vs) e)
+                  ds locks
+      | None =>
+          exists d, In d ds /\
+                    (new_constraint (dconstraint d) = None \/ assoc (dname d) idx = None \/
+                     exists cs vs, new_constraint (dconstraint d) = Some cs /\
+                                   assoc (dname d) idx = Some vs /\
+                                   none_entry (constraints_check cs) (filter has_urls vs))
+      end.
+Proof. exact resolve_concrete_thm. Qed.
+Print Assumptions C18_resolve_concrete.
+
+(* real constraint strings through the whole chain (parser, checker, Get / tag match / Resolve) *)
+Example C18_concrete_example :
+  get cvalid sat ex_idx "app" "" = GOk (ex_entry "v1.2" "d5" []) /\
+  get cvalid sat ex_idx "app" "^1" = GOk (ex_entry "v1.2" "d5" []) /\
+  get cvalid sat ex_idx "app" "~1.1" = GOk (ex_entry "1.1.0+b1" "d6" ["u6"]) /\
+  get cvalid sat ex_idx "app" ">=1.0.0 <1.1.0 || 3.x" = GOk (ex_entry "1.0.0" "d1" ["u1"]) /\
+  get cvalid sat ex_idx "app" "latest" = GErrConstraint /\
+  get cvalid sat ex_idx "pre" "" = GErrNotFound /\
+  get cvalid sat ex_idx "pre" ">0.0.0-0" <> GErrNotFound /\
+  tag_match cvalid sat ex_tags "" = TOk "v1.2" /\
+  tag_match cvalid sat ex_tags "1.0 - 1.1" = TOk "1.1.0+b1" /\
+  tag_match cvalid sat ex_tags "weekly" = TErrConstraint /\
+  resolve cvalid sat (LOk ex_idx) [mkDep "app" "^1"] = Some ["1.1.0+b1"] /\
+  resolve cvalid sat (LOk ex_idx) [mkDep "app" "^1"; mkDep "pre" "*"] = None.
+Proof. exact example_concrete_queries. Qed.
+Print Assumptions C18_concrete_example.
+
+(* ---- what "satisfies" means ---- *)
+
+(* an OR-list is the disjunction of its groups, an AND-list the conjunction of its members *)
+Theorem C18_check_is_or_of_ands :
+  forall c v,
+    sat c v = true <->
+    exists cs g, new_constraint c = Some cs /\ In g cs /\ forall k, In k g -> ccheck v k = true.
+Proof. exact sat_spec. Qed.
+Print Assumptions C18_check_is_or_of_ands.
+
+(* the checker sees the version written in a constraint only through its precedence key *)
+Theorem C18_constraint_key_only :
+  forall v c c',
+    k_fn c = k_fn c' -> vkey (k_con c) = vkey (k_con c') ->
+    k_minor_dirty c = k_minor_dirty c' -> k_dirty c = k_dirty c' -> k_patch_dirty c = k_patch_dirty c' ->
+    ccheck v c = ccheck v c'.
+Proof. exact ccheck_key. Qed.
+Print Assumptions C18_constraint_key_only.
+
+(* the pre-release rule, exactly: a pre-release version is refused by every single constraint
+   whose own version is a release — except by "!=" on a full version, which accepts it *)
+Theorem C18_prerelease_rule :
+  forall v c,
+    is_stable v = false -> is_stable (k_con c) = true ->
+    (k_fn c = FNotEqual -> k_dirty c = true) ->
+    ccheck v c = false.
+Proof. exact pre_release_rule. Qed.
+Print Assumptions C18_prerelease_rule.
+
+Theorem C18_not_equal_admits_prerelease :
+  forall v con, is_stable v = false -> is_stable con = true -> ccheck v (plain FNotEqual con) = true.
+Proof. exact not_equal_admits_prerelease. Qed.
+Print Assumptions C18_not_equal_admits_prerelease.
+
+(* comparison operators on full versions: plain precedence, plus "release only" when the
+   constraint's version is a release *)
+Theorem C18_compare_ops_release :
+  forall v con,
+    is_stable con = true ->
+    ccheck v (plain FGreaterThan con) = is_stable v && vgt v con /\
+    ccheck v (plain FGreaterThanEqual con) = is_stable v && vgeb v con /\
+    ccheck v (plain FLessThan con) = is_stable v && vless v con /\
+    ccheck v (plain FLessThanEqual con) = is_stable v && vle v con /\
+    ccheck v (plain FTildeOrEqual con) = is_stable v && veqb v con.
+Proof. exact compare_ops_release. Qed.
+Print Assumptions C18_compare_ops_release.
+
+Theorem C18_compare_ops_with_prerelease :
+  forall v con,
+    is_stable con = false ->
+    ccheck v (plain FGreaterThan con) = vgt v con /\
+    ccheck v (plain FGreaterThanEqual con) = vgeb v con /\
+    ccheck v (plain FLessThan con) = vless v con /\
+    ccheck v (plain FLessThanEqual con) = vle v con /\
+    ccheck v (plain FTildeOrEqual con) = veqb v con.
+Proof. exact compare_ops_with_prerelease. Qed.
+Print Assumptions C18_compare_ops_with_prerelease.
+
+(* ^M.m.p = >=M.m.p <(M+1).0.0;  ^0.m.p = >=0.m.p <0.(m+1).0;  ^0.0.p = >=0.0.p <0.0.(p+1);
+   ^M / ^M.x = >=M.0.0 <(M+1).0.0 (also M = 0);  ^0.m / ^0.m.x = >=0.m.0 <0.(m+1).0 *)
+Theorem C18_caret_ranges :
+  forall v,
+    (forall M m p, (0 < M)%N ->
+       ccheck v (plain FCaret (release M m p)) =
+       ccheck v (plain FGreaterThanEqual (release M m p)) && ccheck v (plain FLessThan (release (M + 1) 0 0))) /\
+    (forall m p, (0 < m)%N ->
+       ccheck v (plain FCaret (release 0 m p)) =
+       ccheck v (plain FGreaterThanEqual (release 0 m p)) && ccheck v (plain FLessThan (release 0 (m + 1) 0))) /\
+    (forall p,
+       ccheck v (plain FCaret (release 0 0 p)) =
+       ccheck v (plain FGreaterThanEqual (release 0 0 p)) && ccheck v (plain FLessThan (release 0 0 (p + 1)))) /\
+    (forall M,
+       ccheck v (mkConstr FCaret (release M 0 0) true true false) =
+       ccheck v (plain FGreaterThanEqual (release M 0 0)) && ccheck v (plain FLessThan (release (M + 1) 0 0))) /\
+    (forall m,
+       ccheck v (mkConstr FCaret (release 0 m 0) false true true) =
+       ccheck v (plain FGreaterThanEqual (release 0 m 0)) && ccheck v (plain FLessThan (release 0 (m + 1) 0))).
+Proof. exact caret_ranges. Qed.
+Print Assumptions C18_caret_ranges.
+
+(* ~M.m.p = >=M.m.p <M.(m+1).0 — except ~0.0.0, which accepts every release *)
+Theorem C18_tilde_ranges :
+  forall v,
+    (forall M m p, (M, m, p) <> (0, 0, 0)%N ->
+       ccheck v (plain FTilde (release M m p)) =
+       ccheck v (plain FGreaterThanEqual (release M m p)) && ccheck v (plain FLessThan (release M (m + 1) 0))) /\
+    ccheck v (plain FTilde (release 0 0 0)) = is_stable v.
+Proof. exact tilde_ranges. Qed.
+Print Assumptions C18_tilde_ranges.
+
+(* M, M.x, =M, ~M = >=M.0.0 <(M+1).0.0;  M.m, M.m.x, =M.m, ~M.m = >=M.m.0 <M.(m+1).0;
+   "*" = every release *)
+Theorem C18_wildcard_ranges :
+  forall v,
+    (forall M,
+       ccheck v (mkConstr FTildeOrEqual (release M 0 0) true true false) =
+       ccheck v (plain FGreaterThanEqual (release M 0 0)) && ccheck v (plain FLessThan (release (M + 1) 0 0)) /\
+       ccheck v (mkConstr FTilde (release M 0 0) true true false) =
+       ccheck v (mkConstr FTildeOrEqual (release M 0 0) true true false)) /\
+    (forall M m,
+       ccheck v (mkConstr FTildeOrEqual (release M m 0) false true true) =
+       ccheck v (plain FGreaterThanEqual (release M m 0)) && ccheck v (plain FLessThan (release M (m + 1) 0)) /\
+       ccheck v (mkConstr FTilde (release M m 0) false true true) =
+       ccheck v (mkConstr FTildeOrEqual (release M m 0) false true true)) /\
+    ccheck v (mkConstr FTildeOrEqual (release 0 0 0) false true false) = is_stable v.
+Proof. exact wildcard_ranges. Qed.
+Print Assumptions C18_wildcard_ranges.
+
+(* >M = >=(M+1).0.0;  >M.m = >=M.(m+1).0;  <=M = <(M+1).0.0;  <=M.m = <M.(m+1).0;
+   >=M.m and <M.m compare with M.m.0 *)
+Theorem C18_partial_comparisons :
+  forall M m v,
+    ccheck v (mkConstr FGreaterThan (release M 0 0) true true false) =
+    ccheck v (plain FGreaterThanEqual (release (M + 1) 0 0)) /\
+    ccheck v (mkConstr FGreaterThan (release M m 0) false true true) =
+    ccheck v (plain FGreaterThanEqual (release M (m + 1) 0)) /\
+    ccheck v (mkConstr FLessThanEqual (release M 0 0) true true false) =
+    ccheck v (plain FLessThan (release (M + 1) 0 0)) /\
+    ccheck v (mkConstr FLessThanEqual (release M m 0) false true true) =
+    ccheck v (plain FLessThan (release M (m + 1) 0)) /\
+    ccheck v (mkConstr FGreaterThanEqual (release M m 0) false true true) =
+    ccheck v (plain FGreaterThanEqual (release M m 0)) /\
+    ccheck v (mkConstr FLessThan (release M m 0) false true true) =
+    ccheck v (plain FLessThan (release M m 0)).
+Proof. exact partial_comparisons. Qed.
+Print Assumptions C18_partial_comparisons.
+
+(* code against intuition: an operator in front of "*" (the wildcard becomes 0.0.0 with the
+   dirty flag only).  On releases: <=* accepts 0.0.z only, !=* and >* everything but 0.0.0,
+   ^* only 0.0.0, <* nothing; >=* and ~* every release *)
+Theorem C18_star_major_quirks :
+  forall v,
+    is_stable v = true ->
+    ccheck v (star_con FLessThanEqual) = ((vmajor v =? 0) && (vminor v =? 0))%N /\
+    ccheck v (star_con FNotEqual) = negb ((vmajor v =? 0) && (vminor v =? 0) && (vpatch v =? 0))%N /\
+    ccheck v (star_con FGreaterThan) = negb ((vmajor v =? 0) && (vminor v =? 0) && (vpatch v =? 0))%N /\
+    ccheck v (star_con FGreaterThanEqual) = true /\
+    ccheck v (star_con FLessThan) = false /\
+    ccheck v (star_con FTilde) = true /\
+    ccheck v (star_con FCaret) = ((vmajor v =? 0) && (vminor v =? 0) && (vpatch v =? 0))%N.
+Proof. exact star_quirks. Qed.
+Print Assumptions C18_star_major_quirks.
+
+(* the equivalences of the library's documentation on its own examples, from the STRINGS,
+   for all versions (pre-releases included) *)
+Theorem C18_documented_equivalences :
+  forall v,
+    sat "^1.2.3" v = sat ">=1.2.3 <2.0.0" v /\
+    sat "~1.2.3" v = sat ">=1.2.3, <1.3.0" v /\
+    sat "1.x" v = sat ">=1.0.0 <2.0.0" v /\
+    sat "^0.2.3" v = sat ">=0.2.3 <0.3.0" v /\
+    sat "^0.0.3" v = sat ">=0.0.3 <0.0.4" v /\
+    sat ">=1.2.3, <2 || 3.x" v = (sat ">=1.2.3" v && sat "<2" v) || sat "3.x" v.
+Proof. exact documented_equivalences. Qed.
+Print Assumptions C18_documented_equivalences.
+
+Theorem C18_hyphen_range_example :
+  forall v,
+    rewrite_range "1.2 - 1.4.5" = ">= 1.2, <= 1.4.5 " /\
+    sat "1.2 - 1.4.5" v = (ccheck v (plain FGreaterThanEqual (release 1 2 0)) &&
+                           ccheck v (plain FLessThanEqual (release 1 4 5))).
+Proof. exact hyphen_range_example. Qed.
+Print Assumptions C18_hyphen_range_example.
+
+(* hyphen ranges are rewritten textually before the split at "||", and "|" is a character
+   of the segment class: "1||2 - 3" means >=1 || 2 <=3, not 1 || >=2 <=3 *)
+Example C18_hyphen_range_quirk :
+  rewrite_range "1||2 - 3" = ">= 1||2, <= 3 " /\
+  new_constraint "1||2 - 3" = new_constraint ">=1 || 2 <=3" /\
+  new_constraint "1 || 2 - 3" = new_constraint "1 || >=2 <=3" /\
+  (exists v, parse_version "5.0.0" = Some v /\ sat "1||2 - 3" v = true /\ sat "1 || 2 - 3" v = false) /\
+  cvalid "1|2" = false /\ cvalid "==1.2.3" = false /\ cvalid "" = false /\ cvalid "1x" = false.
+Proof. exact hyphen_range_quirk. Qed.
+Print Assumptions C18_hyphen_range_quirk.
